@@ -18,7 +18,7 @@ BUDGET = {"quick": 4000, "thorough": 250000}
 CHUNK = 50
 RUN_TIMEOUT_S = 1500
 RULE = (
-    "seeded histories (5..300 ops) over one Revolute between origin-frame/rigid body or rigid body/rigid body, "
+    "seeded histories (5..300 ops) over one Revolute between origin-frame/rigid body, rigid body/rigid body or a Frame with prescribed translation and rotation/rigid body (time advances between queries), "
     "random axis, joint frame, angle0; ops rotate(delta in (-pi/2,pi/2), biased to quadrant boundaries and long "
     "monotone runs) + query, repeated query (l/angle alias), rate query with random twists, common rigid motion "
     "of both bodies (wiggle), reset (joint/System) checked against a freshly built twin; quaternions handed in "
@@ -39,7 +39,7 @@ HALF_PI = 0.5 * np.pi
 
 # ------------------------------------------------------------------ generator
 def gen(rng, tier, index):
-    sub1 = "origin" if rng.random() < 0.4 else "body"
+    sub1 = str(rng.choice(["origin", "origin", "body", "body", "body", "frame", "frame"]))
     axis = int(rng.integers(3))
     angle0 = float(rng.choice([0.0, 0.0, rng.uniform(-7, 7), np.pi, -HALF_PI]))
     plan = {
@@ -53,6 +53,14 @@ def gen(rng, tier, index):
         "pJ": None if rng.random() < 0.25 else rot.rand_quat(rng).tolist(),
         "rJ": None if rng.random() < 0.25 else rng.uniform(-1, 1, 3).tolist(),
     }
+    if sub1 == "frame":
+        # prescribed motion of the first partner: r(t) = r1 + amp sin(w t), A(t) = A1 R(axis, alpha sin(w t))
+        plan["motion"] = {
+            "amp": (rng.uniform(-1, 1, 3) * (rng.random() < 0.6)).tolist(),
+            "w": float(rng.uniform(0.5, 4.0)),
+            "axis": rng.normal(size=3).tolist() if rng.random() < 0.6 else np.eye(3)[axis].tolist(),
+            "alpha": float(rng.choice([0.0, rng.uniform(0.2, 7.0), rng.uniform(0.2, 7.0)])),
+        }
     n = int(rng.choice([5, 20, 60, 150, 300]))
     mode = str(rng.choice(["forward", "backward", "random", "boundary", "mixed"]))
     ops = []
@@ -86,7 +94,10 @@ def gen(rng, tier, index):
                 }
             )
         elif x < 0.95:
-            ops.append({"op": "wiggle", "p": rot.rand_quat(rng).tolist(), "t": rng.uniform(-2, 2, 3).tolist()})
+            if sub1 == "frame":
+                ops.append({"op": "advance", "dt": float(rng.choice([rng.uniform(0.01, 0.5), rng.uniform(0.5, 5.0)]))})
+            else:
+                ops.append({"op": "wiggle", "p": rot.rand_quat(rng).tolist(), "t": rng.uniform(-2, 2, 3).tolist()})
         else:
             ops.append({"op": "reset", "via": str(rng.choice(["joint", "system"]))})
     plan["ops"] = ops
@@ -100,14 +111,17 @@ class Rig:
 
     def __init__(self, plan):
         from cardillo import System
-        from cardillo.discrete import RigidBody
+        from cardillo.discrete import RigidBody, Frame
         from cardillo.constraints import Revolute
+        from ..scenes import FrameMotion
 
         self.plan = plan
         self.body1 = plan["sub1"] == "body"
+        self.frame1 = plan["sub1"] == "frame"
         self.c = plan["axis"]
-        A1 = rot.quat_to_mat(plan["p1"]) if self.body1 else np.eye(3)
-        r1 = np.array(plan["r1"]) if self.body1 else np.zeros(3)
+        placed = self.body1 or self.frame1
+        A1 = rot.quat_to_mat(plan["p1"]) if placed else np.eye(3)
+        r1 = np.array(plan["r1"]) if placed else np.zeros(3)
         A2 = rot.quat_to_mat(plan["p2"])
         r2 = np.array(plan["r2"])
         AJ = rot.quat_to_mat(plan["pJ"]) if plan["pJ"] is not None else A1
@@ -125,10 +139,19 @@ class Rig:
             b1 = RigidBody(1.0, theta, q0=q10, name="b1")
             system.add(b1)
             s1 = b1
+        elif self.frame1:
+            fm = self.fm = FrameMotion({"r": plan["r1"], "p": plan["p1"], "motion": plan["motion"]})
+            s1 = Frame(r_OP=fm.r, r_OP_t=fm.r_t, r_OP_tt=fm.r_tt, A_IB=fm.A, A_IB_t=fm.A_t, A_IB_tt=fm.A_tt, name="f1")
+            system.add(s1)
         else:
             s1 = system.origin
         q20 = np.concatenate([r2, rot.mat_to_quat(A2)])
-        b2 = RigidBody(1.0, theta, q0=q20, name="b2")
+        u20 = np.zeros(6)
+        if self.frame1:
+            # start co-moving with the prescribed frame (consistent initial velocities)
+            om = self.omega1(0.0)
+            u20 = np.concatenate([self.fm.r_t(0.0) + np.cross(om, r2 - r1), A2.T @ om])
+        b2 = RigidBody(1.0, theta, q0=q20, u0=u20, name="b2")
         joint = Revolute(
             s1,
             b2,
@@ -143,10 +166,18 @@ class Rig:
             system.assemble()
         self.system, self.joint = system, joint
 
-    def config(self, phi, Rw, tw, scale):
+    def omega1(self, t):
+        """Angular velocity of the prescribed frame in the inertial basis (harness formula)."""
+        fm = self.fm
+        return fm.A(t) @ fm.axis * (fm.alpha * fm.w * np.cos(fm.w * t))
+
+    def config(self, phi, Rw, tw, scale, t=0.0):
         """-> joint-local q, plus (A1, A2, e_c) computed by the harness."""
-        A1 = Rw @ self.A10 if self.body1 else np.eye(3)
-        r1 = Rw @ self.r10 + tw if self.body1 else np.zeros(3)
+        if self.frame1:
+            A1, r1 = self.fm.A(t), self.fm.r(t)
+        else:
+            A1 = Rw @ self.A10 if self.body1 else np.eye(3)
+            r1 = Rw @ self.r10 + tw if self.body1 else np.zeros(3)
         A_IJ1 = A1 @ self.A_K1J
         rJ = r1 + A1 @ self.B1_r
         A_IJ2 = A_IJ1 @ rot.rot_axis(self.c, phi)
@@ -185,7 +216,7 @@ def execute(plan, out, log):
 
     def query(k, how="l"):
         nonlocal offset, pending_reset
-        q, _, _, _ = rig.config(phi, Rw, tw, scale)
+        q, _, _, _ = rig.config(phi, Rw, tw, scale, t)
         f = joint.l if how == "l" else joint.angle
         val = float(f(t, q))
         log.ev("query", k, how, val)
@@ -237,12 +268,17 @@ def execute(plan, out, log):
                 bad("query_not_idempotent", plan["sub1"], f"op {k}: repeated queries at one configuration returned {vals}")
             out["probes"]["repeated_query"] += 1
         elif op["op"] == "rate":
-            q, A1, A2, e_c = rig.config(phi, Rw, tw, scale)
+            q, A1, A2, e_c = rig.config(phi, Rw, tw, scale, t)
             u2 = np.array(op["u2"])
             if rig.body1:
                 u1 = np.array(op["u1"])
                 u = np.concatenate([u1, u2])
                 want = e_c @ (A2 @ u2[3:] - A1 @ u1[3:])
+            elif rig.frame1:
+                u = u2
+                want = e_c @ (A2 @ u2[3:] - rig.omega1(t))
+                if abs(e_c @ rig.omega1(t)) > 1e-3:
+                    out["probes"]["rate_query_on_spinning_frame"] += 1
             else:
                 u = u2
                 want = e_c @ (A2 @ u2[3:])
@@ -255,6 +291,11 @@ def execute(plan, out, log):
             if rig.body1:
                 Rw, tw = rot.quat_to_mat(op["p"]), np.array(op["t"])
                 out["probes"]["wiggle"] += 1
+                query(k)
+        elif op["op"] == "advance":
+            if rig.frame1:
+                t += op["dt"]
+                out["probes"]["frame_advanced"] += 1
                 query(k)
         elif op["op"] == "reset":
             if op["via"] == "joint":
